@@ -212,6 +212,8 @@ func RunJobs(w *symex.World, jobs []Job, opt Options, known map[string]bool) []*
 					jr.Unknown += sess.UnkN - k0
 					jr.SolverEr = append(jr.SolverEr, sess.Errors[e0:]...)
 				}
+				// only the results are kept: the term store (the bulk of the memory) is released
+				ex.St, ex.Sol = nil, nil
 				parts[cur] = append(parts[cur], ex)
 				mu.Unlock()
 				ex = nil
